@@ -14,6 +14,7 @@ pub mod c14;
 pub mod c15;
 pub mod c16;
 pub mod c17;
+pub mod c18;
 
 use crate::engine::Ctx;
 
@@ -43,6 +44,7 @@ pub fn dispatch(ctx: &Ctx, replay: Option<&str>) -> i32 {
         "C15" => p!(c15),
         "C16" => p!(c16),
         "C17" => p!(c17),
+        "C18" => p!(c18),
         other => {
             eprintln!("MACHINERY: unknown property {}", other);
             2
